@@ -824,7 +824,10 @@ func (c *FCtx) execLoop(st *State, lp *loopParts) []Flow {
 		}
 	}
 	if spec == nil {
-		fail("loop %d of %s has no invariant in the contract file", ord, c.curFunc)
+		// no invariant in the contract: unroll (covers constant small trip counts, e.g. a new 4-byte compare loop);
+		// that 16 iterations suffice is an obligation, so an unbounded loop without invariant still fails the check
+		c.note(fmt.Sprintf("loop %d of %s has no invariant: unrolled up to 16 iterations (bound is an obligation)", ord, c.curFunc))
+		return c.unrollLoop(st, lp, iter, 16, ord)
 	}
 	lname := fmt.Sprintf("loop[%d]", ord)
 	pos := c.eng.pos(lp.node)
